@@ -291,8 +291,10 @@ func c18Exhaustive(t *testing.T, out *vOut) {
 	out.Flush()
 }
 
-// TestVerifC18RC: Start/Shutdown of 1-4 sharers of one limiter in any order; after every op one check interval and
-// a half passes and we look whether memory was read (the monitoring goroutine is alive AND its ticker fires).
+// TestVerifC18RC: Start/Shutdown of any number of sharers of one limiter in any order, interleaved with tick windows:
+// one and a half check intervals pass with a scripted memory reading; we observe whether memory was read (the
+// monitoring goroutine is alive AND its ticker fires) and the mode afterwards (the ticker really drives CheckMemLimits).
+// A panic of Start/Shutdown (e.g. a double close) is recovered and reported as a violation with this case as replay.
 func TestVerifC18RC(t *testing.T) {
 	out := vOpen(t)
 	defer out.Close()
@@ -300,7 +302,9 @@ func TestVerifC18RC(t *testing.T) {
 	corpus := [][]int{
 		{0, 2, 1, 2, 0, 2, 1, 2},       // start tick shutdown tick START-AGAIN tick shutdown tick
 		{1, 0, 0, 2, 1, 2, 1, 2, 1, 2}, // shutdown without start; two sharers
+		{0, 0, 0, 1, 2, 1, 2, 1, 2},    // three sharers leave one by one
 	}
+	const soft = uint64(80 << 20)
 	for _, idx := range vCases(vN(1500)) {
 		r := vRand(idx)
 		var ops []int
@@ -313,55 +317,89 @@ func TestVerifC18RC(t *testing.T) {
 			}
 		}
 		out.Linef("case %d", idx)
-		synctest.Test(t, func(t *testing.T) {
-			cfg := &Config{CheckInterval: time.Second, MemoryLimitMiB: 100, MemorySpikeLimitMiB: 20}
-			ml, err := NewMemoryLimiter(cfg, zap.NewNop())
-			if err != nil {
-				t.Fatal(err)
-			}
-			reads := 0
-			ml.readMemStatsFn = func(ms *runtime.MemStats) { reads++; ms.Alloc = 1 }
-			users, restarts := 0, 0
-			everZero := false
-			for _, op := range ops {
-				switch op {
-				case 0:
-					out.Linef("op start")
-					err := ml.Start(context.Background(), nil)
-					out.Linef("obs rc err=%d", vB(err != nil))
-					if users == 0 && everZero {
-						restarts++
-					}
-					users++
-				case 1:
-					out.Linef("op shutdown")
-					err := ml.Shutdown(context.Background())
-					out.Linef("obs rc err=%d", vB(err != nil))
-					if err == nil {
-						users--
-						if users == 0 {
-							everZero = true
-						}
-					} else if err != ErrShutdownNotStarted {
-						out.Linef("viol sig=C18/refcount/unexpected-error %v", err)
-					}
+		func() {
+			// synctest.Test itself panics when goroutines stay blocked after a recovered panic inside the bubble
+			defer func() {
+				if p := recover(); p != nil {
+					out.Linef("viol sig=C18/refcount/panic-or-stuck-goroutine %v", p)
 				}
-				// every op is followed by a tick window
-				before := reads
-				time.Sleep(cfg.CheckInterval + cfg.CheckInterval/2)
-				synctest.Wait()
-				out.Linef("op tick")
-				out.Linef("obs tick checked=%d", vB(reads > before))
-			}
-			for ml.Shutdown(context.Background()) == nil {
-			}
-			ml.ticker.Stop()
-			if restarts > 0 || len(ops) > 4 {
-				out.Linef("nt")
-			}
-			out.Linef("stat ops %d", len(ops))
-			out.Linef("stat restarts_after_full_shutdown %d", restarts)
-		})
+			}()
+			synctest.Test(t, func(t *testing.T) {
+				cfg := &Config{CheckInterval: time.Second, MemoryLimitMiB: 100, MemorySpikeLimitMiB: 20,
+					MinGCIntervalWhenSoftLimited: time.Hour, MinGCIntervalWhenHardLimited: time.Hour}
+				ml, err := NewMemoryLimiter(cfg, zap.NewNop())
+				if err != nil {
+					t.Fatal(err)
+				}
+				start := time.Now()
+				reads := 0
+				alloc := uint64(1)
+				ml.readMemStatsFn = func(ms *runtime.MemStats) { reads++; ms.Alloc = alloc }
+				ml.runGCFn = func() {}
+				users, restarts := 0, 0
+				everZero := false
+				call := func(name string, f func() error) (err error, panicked bool) {
+					defer func() {
+						if p := recover(); p != nil {
+							out.Linef("viol sig=C18/refcount/panic-in-%s %v", name, p)
+							panicked = true
+						}
+					}()
+					return f(), false
+				}
+				defer func() {
+					// leave no goroutine and no armed ticker behind, whatever happened
+					for i := 0; i < 64; i++ {
+						if err, p := call("cleanup", func() error { return ml.Shutdown(context.Background()) }); err != nil || p {
+							break
+						}
+					}
+					ml.ticker.Stop()
+				}()
+				for _, op := range ops {
+					switch op {
+					case 0:
+						out.Linef("op start")
+						err, p := call("start", func() error { return ml.Start(context.Background(), nil) })
+						if p {
+							return
+						}
+						out.Linef("obs rc err=%d", vB(err != nil))
+						if users == 0 && everZero {
+							restarts++
+						}
+						users++
+					case 1:
+						out.Linef("op shutdown")
+						err, p := call("shutdown", func() error { return ml.Shutdown(context.Background()) })
+						if p {
+							return
+						}
+						out.Linef("obs rc err=%d", vB(err != nil))
+						if err == nil {
+							users--
+							if users == 0 {
+								everZero = true
+							}
+						} else if err != ErrShutdownNotStarted {
+							out.Linef("viol sig=C18/refcount/unexpected-error %v", err)
+						}
+					}
+					// every op is followed by a tick window with a scripted reading
+					alloc = []uint64{0, soft - 1, soft, soft + 1, 200 << 20}[r.IntN(5)]
+					before := reads
+					time.Sleep(cfg.CheckInterval + cfg.CheckInterval/2)
+					synctest.Wait()
+					out.Linef("op tick r=%d now=%d", alloc, int64(time.Since(start)))
+					out.Linef("obs tick checked=%d refuse=%d", vB(reads > before), vB(ml.MustRefuse()))
+				}
+				if restarts > 0 || len(ops) > 4 {
+					out.Linef("nt")
+				}
+				out.Linef("stat ops %d", len(ops))
+				out.Linef("stat restarts_after_full_shutdown %d", restarts)
+			})
+		}()
 		out.Linef("end")
 		out.Flush()
 	}
